@@ -46,6 +46,11 @@ def run(P, tier="quick"):
             R.violated(Finding("R01", props_for(f) | {"C12"}, f.file, f.name, "double-release:%s" % var,
                                "%s obtained from %s() at line %d is released a second time at line %d on a path where it "
                                "was already released" % (var, callee, line, node.line), node.line, trace))
+        for rid, name, node, trace in tr.unchecked:
+            callee, line, var = sites.get(rid, ("?", 0, name))
+            R.violated(Finding("R19", {"C12", "C03"}, f.file, f.name, "unchecked:%s<-%s" % (var, callee),
+                               "%s receives the result of %s() at line %d and is dereferenced at line %d before being tested "
+                               "for NULL" % (var, callee, line, node.line), node.line, trace))
         for rid, (callee, line, var) in sites.items():
             nsites += 1
             key_anchor = "%s<-%s" % (var, callee)
